@@ -1041,6 +1041,16 @@ func (c *Ctx) checkLoaderReadsLiveRows(rule string) {
 				if mu, ok := in.(*ssa.MapUpdate); ok && core.IsFieldLoad(perUser)(mu.Map) {
 					fills = true
 				}
+				// the filing of one row moved into a helper called per row (`t.cacheSubscriber(sub)`)
+				if call, ok := in.(*ssa.Call); ok {
+					if h := call.Call.StaticCallee(); h != nil && h != fn && core.InPkg(h, "server") && len(h.Blocks) > 0 && len(h.Blocks) <= 6 {
+						core.AllInstrs(h, func(in2 ssa.Instruction) {
+							if mu, ok := in2.(*ssa.MapUpdate); ok && core.IsFieldLoad(perUser)(mu.Map) {
+								fills = true
+							}
+						})
+					}
+				}
 			})
 		}
 		if !fills {
@@ -1916,6 +1926,19 @@ func (c *Ctx) checkAcceptRecordedAfterPublished() {
 			case *ssa.Store:
 				if f, _ := core.FieldOfAddr(x.Addr); f == acceptedF {
 					sinks = append(sinks, in)
+				}
+			case *ssa.Call:
+				// the party added through a method of the call record (`t.currentCall.addParty(sess, uid, false)`)
+				if h := x.Call.StaticCallee(); h != nil && h != fn && core.InPkg(h, "server") && len(h.Blocks) > 0 && len(h.Blocks) <= 3 {
+					adds := false
+					core.AllInstrs(h, func(in2 ssa.Instruction) {
+						if mu, ok := in2.(*ssa.MapUpdate); ok && core.IsFieldLoad(partiesF)(mu.Map) {
+							adds = true
+						}
+					})
+					if adds {
+						sinks = append(sinks, in)
+					}
 				}
 			}
 		})
@@ -4421,8 +4444,29 @@ func (c *Ctx) checkLoaderCachesEveryRow() {
 			continue
 		}
 		isUpd := func(in ssa.Instruction) bool {
-			mu, ok := in.(*ssa.MapUpdate)
-			return ok && core.IsFieldLoad(perUser)(mu.Map)
+			if mu, ok := in.(*ssa.MapUpdate); ok && core.IsFieldLoad(perUser)(mu.Map) {
+				return true
+			}
+			// a helper that files one row: it updates perUser on every path to its return
+			if call, ok := in.(*ssa.Call); ok {
+				if h := call.Call.StaticCallee(); h != nil && h != fn && core.InPkg(h, "server") && len(h.Blocks) > 0 {
+					inner := func(i2 ssa.Instruction) bool {
+						mu, ok := i2.(*ssa.MapUpdate)
+						return ok && core.IsFieldLoad(perUser)(mu.Map)
+					}
+					has := false
+					core.AllInstrs(h, func(i2 ssa.Instruction) {
+						if inner(i2) {
+							has = true
+						}
+					})
+					if has {
+						skip, _ := core.PathAvoiding(h, nil, core.IsReturn, inner, nil)
+						return !skip
+					}
+				}
+			}
+			return false
 		}
 		var upd ssa.Instruction
 		core.AllInstrs(fn, func(in ssa.Instruction) {
@@ -4527,6 +4571,28 @@ func (c *Ctx) checkOnlineKeyedBySubscribedUser() {
 				break
 			}
 			f, _ := core.LoadedField(k)
+			// the step extracted into a helper that is handed the user (`t.addOnline(uid, +1)`): what the callers pass
+			if p, isP := k.(*ssa.Parameter); isP {
+				idx := -1
+				for i, q := range fn.Params {
+					if q == p {
+						idx = i
+					}
+				}
+				for _, cs := range c.callersOf(fn) {
+					args := cs.Site.Common().Args
+					if idx < 0 || cs.Site.Common().IsInvoke() || idx >= len(args) {
+						continue
+					}
+					a := args[idx]
+					if ct, ok := a.(*ssa.ChangeType); ok {
+						a = ct.X
+					}
+					if g, _ := core.LoadedField(a); g == sessUid {
+						f = sessUid
+					}
+				}
+			}
 			construct := fmt.Sprintf("%s: perUser record of the subscribed user", fk(fn))
 			if kk := countSame(r, rule, construct); kk > 0 {
 				construct = fmt.Sprintf("%s #%d", construct, kk+1)
@@ -4535,7 +4601,7 @@ func (c *Ctx) checkOnlineKeyedBySubscribedUser() {
 				"a function that steps the online counter takes the record of the session's own uid: for a root session attached on behalf of another user the wrong user's counter moves (and a ghost record appears)")
 		})
 	}
-	r.Check(n >= 3, rule, "perUser accesses in functions that step the online counter", "-", fmt.Sprintf("%d", n), "fewer than three: anchor lost")
+	r.Check(n >= 1, rule, "perUser accesses in functions that step the online counter", "-", fmt.Sprintf("%d", n), "none: anchor lost")
 }
 
 // checkEnabledComesFromEnCommand (C10): a contact's record carries two flags, online and enabled;
@@ -4664,7 +4730,20 @@ func (c *Ctx) checkClientMapValuesAssertedSafely() {
 			r.Fail(rule, construct, c.pos(ta), "a value taken out of a map[string]any (client-supplied JSON such as a message head) is asserted to "+ta.AssertedType.String()+" without the comma-ok form: any other JSON type panics in a goroutine that has no recover")
 		})
 	}
-	r.Check(safe >= 3, rule, "comma-ok assertions on values of a message head", "-", fmt.Sprintf("%d of %d", safe, n), "fewer than three: anchor lost")
+	// anchor: the heads are read somewhere (the assertions themselves may sit in a closure or helper
+	// that is handed the map, where the lookup is no longer tied to the field)
+	reads := 0
+	for _, fn := range c.P.ModFuncs {
+		if !core.InPkg(fn, "server") {
+			continue
+		}
+		core.AllInstrs(fn, func(in ssa.Instruction) {
+			if v, ok := in.(ssa.Value); ok && isHead(v) {
+				reads++
+			}
+		})
+	}
+	r.Check(reads >= 3, rule, "reads of a message head in package server", "-", fmt.Sprintf("%d reads, %d of %d assertions comma-ok", reads, safe, n), "fewer than three: anchor lost")
 }
 
 // checkCallTimerStoppedOnlyWhenSettled (C15): the establishment timer is what ends an unanswered
